@@ -1047,7 +1047,16 @@ impl<'ast> syn::visit::Visit<'ast> for InlineScan {
     fn visit_expr(&mut self, e: &'ast Expr) {
         match e {
             // `return` / `?` leave the HELPER: equivalent after inlining only where the call is the caller's own result (tail position)
-            Expr::Return(_) => { self.early_exit = true; self.has_return = true; }
+            // `return Err(..)` leaves the helper with an error - at a `helper(..)?` call site that is what `?`
+            // does with it; any other `return` hands a VALUE back to the caller and is not an exit of the caller
+            Expr::Return(r) => {
+                self.early_exit = true;
+                let is_err = match &r.expr {
+                    Some(x) => match &**x { Expr::Call(c) => matches!(&*c.func, Expr::Path(p) if p.path.is_ident("Err")), _ => false },
+                    None => false,
+                };
+                if !is_err { self.has_return = true; }
+            }
             Expr::Try(_) => self.early_exit = true,
             Expr::While(_) | Expr::Loop(_) | Expr::ForLoop(_) | Expr::Break(_) | Expr::Continue(_) | Expr::Closure(_) => self.bad = true,
             Expr::Call(c) => { if let Expr::Path(p) = &*c.func { if p.path.segments.last().map(|x| x.ident == self.own).unwrap_or(false) { self.bad = true; } } }
@@ -1278,6 +1287,31 @@ fn emit_target(ctx: &mut Ctx, unit: &Unit, t: &Target) -> Emitted {
                     }
                 }
                 block.stmts.push(marker)
+            }
+            "exits" => {
+                // at the normal end (as `tail`) AND before every `return` statement: for hints that speak only
+                // about self / old(self) / the parameters and must hold whichever way the function is left
+                struct RetMark { marker: Stmt }
+                impl VisitMut for RetMark {
+                    fn visit_block_mut(&mut self, b: &mut Block) {
+                        visit_mut::visit_block_mut(self, b);
+                        let mut out: Vec<Stmt> = Vec::with_capacity(b.stmts.len());
+                        for st in b.stmts.drain(..) {
+                            if matches!(&st, Stmt::Expr(Expr::Return(_), _)) { out.push(self.marker.clone()); }
+                            out.push(st);
+                        }
+                        b.stmts = out;
+                    }
+                    fn visit_expr_closure_mut(&mut self, _c: &mut syn::ExprClosure) {}
+                }
+                let mut rm = RetMark { marker: marker.clone() };
+                rm.visit_block_mut(&mut block);
+                if let Some(Stmt::Expr(e, semi @ None)) = block.stmts.last_mut() {
+                    if matches!(e, Expr::Match(_) | Expr::If(_) | Expr::Block(_) | Expr::While(_) | Expr::Loop(_) | Expr::ForLoop(_)) {
+                        *semi = Some(Default::default());
+                    }
+                }
+                if !matches!(block.stmts.last(), Some(Stmt::Expr(Expr::Return(_), _))) { block.stmts.push(marker) }
             }
             "end" => {
                 // before a tail expression if there is one
